@@ -38,6 +38,8 @@ type JobOpts struct {
 	LingerMs int `json:"linger_ms"`
 	// EarlyWait: every second run waits for completion the moment StartAll has returned
 	EarlyWait bool `json:"early_wait"`
+	// EagerDeliver: events are delivered as soon as the catch events they address listen
+	EagerDeliver bool `json:"eager_deliver"`
 }
 
 type Job struct {
@@ -46,6 +48,10 @@ type Job struct {
 	Opts      JobOpts          `json:"opts"`
 	// Mode "tracer": one tracer scenario per entry of Schedules (same index)
 	Tracer []drive.TracerScenario `json:"tracer"`
+	// PolicyRun: run index that selects the perturbation policy (and driver variations) of each
+	// schedule; absent: the schedule's own index.  A confirmation re-run keeps the policy of the
+	// run it confirms.
+	PolicyRun []int `json:"policy_run,omitempty"`
 	// Mode "cancel": cancel point (number of traces) per schedule index, -1 = reference run
 	CancelAt []int `json:"cancel_at"`
 	// Mode "builds"
@@ -72,6 +78,7 @@ type RunLog struct {
 func (o JobOpts) driveOptsFor(run int) drive.Options {
 	d := o.driveOpts()
 	d.EarlyWait = o.EarlyWait && run%2 == 0
+	d.EagerDeliver = o.EagerDeliver
 	switch {
 	case o.LingerMs > 0:
 		d.Linger = time.Duration(o.LingerMs) * time.Millisecond
@@ -140,7 +147,11 @@ func WorkerMain(args []string) int {
 		sch := &job.Schedules[i]
 		// progress marker: lets the parent attribute a crash to this run
 		fmt.Fprintf(out, "{\"run\":%d,\"begin\":true}\n", i)
-		sched.Install(sched.ForRun(job.Opts.Perturb, job.Opts.Seed, i, job.Opts.HoldPoints))
+		pr := i
+		if i < len(job.PolicyRun) {
+			pr = job.PolicyRun[i]
+		}
+		sched.Install(sched.ForRun(job.Opts.Perturb, job.Opts.Seed, pr, job.Opts.HoldPoints))
 		var line []byte
 		if job.Opts.Mode == "tracer" {
 			tlog := drive.TracerRun(i, job.Tracer[i])
@@ -163,7 +174,7 @@ func WorkerMain(args []string) int {
 			line, _ = json.Marshal(RunLog{Run: i, Log: []drive.Rec{}, TmLog: tm})
 		} else {
 			p := job.Programs[sch.Prog]
-			log := drive.Run(i, p, sch, job.Opts.driveOptsFor(i))
+			log := drive.Run(i, p, sch, job.Opts.driveOptsFor(pr))
 			line, _ = json.Marshal(RunLog{Run: i, Log: log})
 		}
 		out.Write(append(line, '\n'))
